@@ -250,6 +250,28 @@ func finish(w *World, ev *Evidence, results []*harnessResult, kf *knownFindings,
 			ev.Inconclusive = append(ev.Inconclusive, fmt.Sprintf("%s: solver error lines: %s", hr.cfg.Name, firstLine(hr.solver.Errors[0])))
 		}
 	}
+	// C16: feasible writes to package-level state are candidates for the race replay
+	for _, hr := range results {
+		if !hr.cfg.MonitorGlobals {
+			continue
+		}
+		var gw []string
+		for g := range hr.gwrites {
+			if strings.Contains(g, ".vh") || strings.Contains(g, ".vspec") || strings.Contains(g, ".vrt") {
+				continue
+			}
+			gw = append(gw, g)
+		}
+		sort.Strings(gw)
+		for _, g := range gw {
+			id := "KF-C16-" + strings.Fields(g)[0]
+			v := &Violation{Harness: hr.cfg.Name, AssertID: "C16.write-to-package-level-state: " + g, Kind: "race", Msg: g}
+			if kf.isKnown(prop, id) {
+				v.Known = id
+			}
+			hr.violations = append(hr.violations, v)
+		}
+	}
 	// native replay of counterexamples and of sampled paths
 	var scripts []*replayScript
 	for _, hr := range results {
